@@ -23,6 +23,7 @@ type bsiCase struct {
 	lo, hi int64
 	fixed  bool
 	is64   bool
+	zeros  bool // every value written in this case is 0 (an index that never needs a value plane)
 }
 
 func newBSICase(r *Rng) *bsiCase {
@@ -45,6 +46,10 @@ func newBSICase(r *Rng) *bsiCase {
 		bc.x = newBSIX(bc.is64, bc.hi, bc.lo)
 	} else {
 		bc.x = newBSIX(bc.is64, 0, 0)
+		if r.Chance(0.06) {
+			bc.zeros = true
+			bc.lo, bc.hi = 0, 0
+		}
 	}
 	return bc
 }
@@ -80,7 +85,7 @@ func c19Histories(c *Ctx) {
 			}
 			bc.m[col] = big.NewInt(v)
 		case "SetBigValue":
-			if !bc.is64 || bc.fixed {
+			if !bc.is64 || bc.fixed || bc.zeros {
 				continue
 			}
 			col := genCol(r, true)
@@ -173,6 +178,9 @@ func c19Histories(c *Ctx) {
 				o := newBSIX(bc.is64, 0, 0)
 				// different widths: each operand draws from its own magnitude class
 				mag := []int64{3, 255, 1 << 20, 1 << 40, 1<<62 - 1}[r.Intn(5)]
+				if bc.zeros && r.Chance(0.8) {
+					mag = 0
+				}
 				lo, hi := maxI64(bc.lo, -mag), minI64(bc.hi, mag)
 				if r.Chance(0.5) {
 					lo = maxI64(lo, 0)
